@@ -504,4 +504,43 @@ def run(tier):
                               fn10.relfile, esc10[-1][1], [p_[1] for p_ in esc10[-5:]]), file=fn10.relfile, line=esc10[-1][1])
         res.instance("C16.R10", "psSignHashRsa (%s): *outLen stored on every success path" % fn10.relfile, esc10 is None, finding=f10)
     res.floor("C16.R10", 1)
+    # ------------------------------------------------------------------ R11
+    # 'both peers then exchange data' when a datagram (or read) holds records that the decoder SKIPS in front of the one it
+    # hands out (old-epoch ChangeCipherSpec, repeated Finished, replayed record; TLS 1.3: ignored ChangeCipherSpec before early
+    # data): matrixSslProcessedData must continue where the decoder stopped.  (a) every return of matrixSslReceivedData that
+    # hands plaintext to the application (APP_DATA, RECEIVED_ALERT) is preceded by a store of that position
+    # (ssl->inProcessedOff); (b) the move in matrixSslProcessedData takes its offset from that field.
+    res.rule("C16.R11", "matrixSslProcessedData continues from the position the decoder reached (records skipped in front of the delivered one are accounted for)")
+    n11 = 0
+    rdl = prog.by_name.get("matrixSslReceivedData")
+    if rdl:
+        fn11 = rdl[0]
+        APP, ALR = prog.const("MATRIXSSL_APP_DATA"), prog.const("MATRIXSSL_RECEIVED_ALERT")
+
+        def stores_off(x):
+            return any(m.get("k") == "bin" and m["op"] == "=" and cu.ftext(strip(m["l"]) or {}) == "ssl->inProcessedOff" for m in walk(x))
+        for (nm, val) in (("MATRIXSSL_APP_DATA", APP), ("MATRIXSSL_RECEIVED_ALERT", ALR)):
+            n11 += 1
+            esc11 = cu.escapes(fn11, (fn11.entry, None), stores_off,
+                               is_target=lambda x, val=val: x.get("k") == "ret" and (strip(x.get("e")) or {}).get("k") == "int" and strip(x["e"])["v"] == val)
+            f11 = None
+            if esc11 is not None:
+                f11 = Finding(PROP, "C16.R11", fn11.name, "plaintext handed out without recording where the decoder stopped",
+                              "%s:%s matrixSslReceivedData(): `return %s` is reachable without a store to ssl->inProcessedOff: matrixSslProcessedData "
+                              "then moves the rest of the input from one record length into the buffer, which is wrong whenever the decoder "
+                              "skipped records in front of the delivered one - the next record of the datagram is lost and garbage is parsed" % (
+                                  fn11.relfile, esc11[-1][1], nm), file=fn11.relfile, line=esc11[-1][1])
+            res.instance("C16.R11", "matrixSslReceivedData: %s returned only after the decoder's position was recorded" % nm, esc11 is None, finding=f11)
+    pdl = prog.by_name.get("matrixSslProcessedData")
+    if pdl:
+        fn11 = pdl[0]
+        n11 += 1
+        uses = any(m.get("k") == "bin" and m["op"] == "=" and (strip(m["l"]) or {}).get("k") == "var" and "inProcessedOff" in cu.ftext(strip(m["r"]) or {})
+                   for b in fn11.blocks for i, ln, x in cu.block_exprs(b) for m in walk(x))
+        f11 = None
+        if not uses:
+            f11 = Finding(PROP, "C16.R11", fn11.name, "recorded decoder position not used",
+                          "%s matrixSslProcessedData(): the offset of the move is not taken from ssl->inProcessedOff" % fn11.relfile, file=fn11.relfile, line=0)
+        res.instance("C16.R11", "matrixSslProcessedData: the move's offset comes from the recorded position", uses, finding=f11)
+    res.floor("C16.R11", 3)
     return res.finish()
